@@ -40,18 +40,20 @@ OPS = ["+", "*", "^"]
 PRIO = {"+": 1, "*": 2, "^": 3}
 
 
-def grammar(marks, k, static=False):
-    """marks: set of 'p<i>' (production i dynamic) and 't<i>' (operator terminal i dynamic)."""
+def grammar(marks, k, static=False, rule_level=False):
+    """marks: set of 'p<i>' (production i dynamic) and 't<i>' (operator terminal i dynamic).
+    `rule_level`: the mark is written once on the rule (every production of the rule inherits it,
+    the operand production too) instead of on every operator production."""
     alts = []
     for i in range(k):
         meta = []
         if static:
             meta = ["left", str(PRIO[OPS[i]])]
-        if "p%d" % i in marks:
+        if "p%d" % i in marks and not rule_level:
             meta.append("dynamic")
         alts.append("E op%d E%s" % (i, (" {%s}" % ", ".join(meta)) if meta else ""))
     alts.append("n")
-    lines = ["E: " + " | ".join(alts) + ";", "terminals", 'n: "n";']
+    lines = [("E {dynamic}: " if rule_level else "E: ") + " | ".join(alts) + ";", "terminals", 'n: "n";']
     for i in range(k):
         lines.append('op%d: "%s"%s;' % (i, OPS[i], " {dynamic}" if "t%d" % i in marks else ""))
     return "\n".join(lines) + "\n"
@@ -122,6 +124,17 @@ def check_trace(res, case, rec):
             res["violations"].append({"kind": "initialisation-call-repeated-inside-a-parse", "case": case,
                                       "observed": [i for i, c in enumerate(calls) if c[2] is None][:8]})
             return False
+        # the decision shown to the filter is one of the cell (from_state, lookahead) of the table
+        la = getattr(ctx.token if action is SHIFT else ctx.token_ahead, "symbol", None)
+        cell = fs.actions.get(la, []) if (la is not None and hasattr(fs, "actions")) else None
+        if cell is not None:
+            ok = any((a.action is SHIFT and a.state is ts) if action is SHIFT
+                     else (a.action is REDUCE and a.prod is production) for a in cell)
+            if not ok:
+                res["violations"].append({"kind": "filter-arguments-are-not-a-decision-of-the-from-state", "case": case,
+                                          "observed": [getattr(fs, "state_id", None), getattr(la, "name", None),
+                                                       "SHIFT" if action is SHIFT else str(production)]})
+                return False
         if action is SHIFT:
             if not ts.symbol.dynamic:
                 res["violations"].append({"kind": "filter-called-for-unmarked-shift", "case": case,
@@ -155,6 +168,7 @@ def units(tier):
     us = [{"k": k, "marks": [sorted(s) for s in ch], "m": 4 if tier == "quick" else 6}
           for ch in chunks(subsets, 64)]
     us.append({"kind": "unary", "m": 3 if tier == "quick" else 5})
+    us.append({"kind": "rr"})
     return us
 
 
@@ -251,10 +265,62 @@ def run_unary(u, res):
     return res
 
 
+# a cell holding two marked reductions of different lengths (reduce/reduce left to the filter)
+RR_GRAMMARS = [
+    ('S: A | B;\nA: x y z {dynamic};\nB: x C;\nC: y z {dynamic};\nterminals\nx: "x";\ny: "y";\nz: "z";\n',
+     ["x y z"], {"A": "[[x y z]]", "C": "[[x [y z]]]"}),
+]
+
+
+def run_rr(res):
+    st = res["stats"]
+
+    def shape_(n):
+        return n.value if n.is_term() else "[" + " ".join(shape_(c) for c in n) + "]"
+    for gtxt, inputs, want in RR_GRAMMARS:
+        g = Grammar.from_string(gtxt)
+        st["grammars"] += 1
+        for keep in ("A", "C", None):
+            def decide(context, fs, ts, action, production, sub, _k=keep):
+                return True if (_k is None or action is not REDUCE) else production.symbol.name == _k
+            for kind in ("LR", "GLR"):
+                rec = Recorder(decide)
+                try:
+                    p = (Parser(g, build_tree=True, dynamic_filter=rec, prefer_shifts=False, prefer_shifts_over_empty=False)
+                         if kind == "LR" else GLRParser(g, dynamic_filter=rec))
+                except (SRConflicts, RRConflicts) as e:
+                    res["violations"].append({"kind": "marked-conflict-not-left-to-the-filter",
+                                              "case": {"grammar": gtxt, "parser": kind}, "observed": type(e).__name__})
+                    continue
+                for text in inputs:
+                    case = {"grammar": gtxt, "filter": "keep-%s" % keep, "parser": kind, "input": text}
+                    rec.calls = []
+                    try:
+                        r = p.parse(text)
+                        got = sorted(shape_(r[i]) for i in range(r.solutions)) if kind == "GLR" else [shape_(r)]
+                    except DynamicDisambiguationConflict:
+                        got = "ddc"
+                    except parglare.exceptions.ParglareError as e:
+                        got = type(e).__name__
+                    res["evaluations"] += 1
+                    st["runs"] += 1
+                    st["filter_calls"] += len(rec.calls)
+                    if not check_trace(res, case, rec):
+                        continue
+                    res["nontrivial"].append(h16(case))
+                    exp = ([want[keep]] if keep else ("ddc" if kind == "LR" else sorted(want.values())))
+                    if got != exp:
+                        res["violations"].append({"kind": "filter-decision-not-followed", "case": case,
+                                                  "observed": got, "expected": exp})
+    return res
+
+
 def run_unit(u):
     res = {"evaluations": 0, "nontrivial": [], "samples": [], "violations": [], "disagreements": [],
            "stats": {"grammars": 0, "runs": 0, "filter_calls": 0, "lr_conflict_errors": 0, "traces": 0}}
     st = res["stats"]
+    if u.get("kind") == "rr":
+        return run_rr(res)
     if u.get("kind") == "unary":
         return run_unary(u, res)
     k = u["k"]
@@ -263,16 +329,27 @@ def run_unit(u):
     p_static = Parser(g_static, build_tree=True, prefer_shifts=False, prefer_shifts_over_empty=False)
     g_plain = Grammar.from_string(grammar(set(), k))
     glr_plain = GLRParser(g_plain)
+    variants = []
     for marks in u["marks"]:
         marks = set(marks)
-        gtxt = grammar(marks, k)
+        variants.append((marks, False))
+        if all("p%d" % i in marks for i in range(k)):
+            variants.append((marks, True))        # the same marking written on the rule
+    for marks, rule_level in variants:
+        gtxt = grammar(marks, k, rule_level=rule_level)
         g = Grammar.from_string(gtxt)
         st["grammars"] += 1
         all_marked = all("p%d" % i in marks for i in range(k))
-        for fname, decide in (("accept-all", accept_all), ("reject-prod-1", None), ("precedence", precedence_filter)):
+        for fname, decide0 in (("accept-all", accept_all), ("reject-prod-1", None), ("precedence", precedence_filter)):
             if fname == "reject-prod-1":
-                def decide(context, fs, ts, action, production, sub):
+                def decide0(context, fs, ts, action, production, sub):
                     return not (action is REDUCE and production.prod_id == 1)
+
+            def decide(context, fs, ts, action, production, sub, _d=decide0):
+                # (with the mark on the rule the operand production is dynamic too: always accepted)
+                if action is REDUCE and len(production.rhs) == 1:
+                    return True
+                return _d(context, fs, ts, action, production, sub)
             # ---------------- GLR
             rec = Recorder(decide)
             gp = GLRParser(g, dynamic_filter=rec)
